@@ -90,6 +90,17 @@ type vsT struct {
 	ExportTo []string `json:"exportTo"`
 	Gateways []string `json:"gateways,omitempty"` // empty = mesh (sidecars)
 	TS       int64    `json:"ts"`
+	// Delegate: the rule additionally delegates the URI prefix /api to this delegate VirtualService
+	// (another object, with its own namespace and exportTo); its destinations become routes of this
+	// rule iff the delegate is exported to this rule's namespace.
+	Delegate *delegateT `json:"delegate,omitempty"`
+}
+
+type delegateT struct {
+	Name     string   `json:"name"`
+	NS       string   `json:"ns"`
+	ExportTo []string `json:"exportTo"`
+	Dests    []destT  `json:"dests"`
 }
 
 // mesh reports whether the rule is bound to the sidecars (no gateways field, or "mesh" in it).
@@ -441,9 +452,36 @@ func (v vsT) config() config.Config {
 			Weight:      w[i],
 		})
 	}
+	routes := []*networking.HTTPRoute{r}
+	if v.Delegate != nil {
+		routes = []*networking.HTTPRoute{{
+			Name:     "d",
+			Match:    []*networking.HTTPMatchRequest{{Uri: &networking.StringMatch{MatchType: &networking.StringMatch_Prefix{Prefix: "/api"}}}},
+			Delegate: &networking.Delegate{Name: v.Delegate.Name, Namespace: v.Delegate.NS},
+		}, r}
+	}
 	return config.Config{
 		Meta: config.Meta{GroupVersionKind: gvk.VirtualService, Name: v.Name, Namespace: v.NS, CreationTimestamp: ts(v.TS)},
-		Spec: &networking.VirtualService{Hosts: v.Hosts, ExportTo: v.ExportTo, Gateways: v.Gateways, Http: []*networking.HTTPRoute{r}},
+		Spec: &networking.VirtualService{Hosts: v.Hosts, ExportTo: v.ExportTo, Gateways: v.Gateways, Http: routes},
+	}
+}
+
+// delegateConfig is the delegate VirtualService object (no hosts, no gateways).
+func (v vsT) delegateConfig() config.Config {
+	d := v.Delegate
+	r := &networking.HTTPRoute{Name: "dr"}
+	for i, dst := range d.Dests {
+		w := int32(0)
+		if i == 0 {
+			w = 100
+		}
+		r.Route = append(r.Route, &networking.HTTPRouteDestination{
+			Destination: &networking.Destination{Host: dst.Host, Port: &networking.PortSelector{Number: uint32(dst.Port)}}, Weight: w,
+		})
+	}
+	return config.Config{
+		Meta: config.Meta{GroupVersionKind: gvk.VirtualService, Name: d.Name, Namespace: d.NS, CreationTimestamp: ts(v.TS + 1)},
+		Spec: &networking.VirtualService{ExportTo: d.ExportTo, Http: []*networking.HTTPRoute{r}},
 	}
 }
 
@@ -509,6 +547,9 @@ func (w *world) configs() ([]config.Config, error) {
 	}
 	for _, v := range w.VS {
 		out = append(out, v.config())
+		if v.Delegate != nil {
+			out = append(out, v.delegateConfig())
+		}
 	}
 	for _, d := range w.DR {
 		out = append(out, d.config())
